@@ -197,6 +197,7 @@ class core_frexp(Contract):
     overrides = {'x._ctx': 'Context | None'}
     returns = 'tuple[Float, Float]'
     properties = ['C20']
+    options = {'noax_first_ms': 4000, 'light_axioms': True}
     note = ('for every context (abstract Context.round / Context.normalize); m * 2^e == x with 1 <= |m| < 2; '
             'the docstring promises an exact computation, so an exponent the context cannot hold must raise')
 
